@@ -116,10 +116,26 @@ func oracle(c Case) (outcome string, err error) {
 		var derr error
 		if c.Target == "unknown" || c.Target == "" {
 			var obj tl.Object
+			given := append([]reflect.Type{}, hints...)
 			obj, derr = tl.DecodeUnknownObject(data, hints...)
 			if derr == nil && obj == nil {
 				caseStart.Store(0)
 				return fmt.Errorf("DecodeUnknownObject returned neither a value nor an error")
+			}
+			// the list of expected types is the caller's (a table of hint sets used for every answer of that kind)
+			// (a table of hint sets used for every answer of that kind): the same call again must end the same way
+			if len(hints) > 0 {
+				_, derr2 := tl.DecodeUnknownObject(data, hints...)
+				if (derr == nil) != (derr2 == nil) {
+					caseStart.Store(0)
+					changed := ""
+					for i := range given {
+						if hints[i] != given[i] {
+							changed = fmt.Sprintf(" (the first call changed entry %d of the caller's list from %v to %v)", i, given[i], hints[i])
+						}
+					}
+					return fmt.Errorf("the same bytes with the same list of expected types a second time: first %v, then %v%s", derr, derr2, changed)
+				}
 			}
 		} else {
 			t, ok := byName[c.Target]
